@@ -172,6 +172,43 @@ func (p *Prog) VerifyFunction(fn *ssa.Function, fc *FuncContract, split *int, wa
 			tcs = append(tcs, tcInfo{tfc, b, sig})
 		}
 	}
+	// interface method contracts this method is checked against (behavioural refinement of the
+	// postconditions; the interface-level ghost view of the receiver is read through `abstracts`)
+	if fc != nil && len(fc.Refines) > 0 {
+		if fn.Signature.Recv() == nil || len(args) == 0 {
+			e.failed = fmt.Errorf("%s: refines on a function without receiver", e.Unit)
+			return e
+		}
+		for _, ikey := range fc.Refines {
+			mkey := "(" + ikey + ")." + fn.Name()
+			tfc, ok := p.CS.Funcs[mkey]
+			if !ok {
+				e.failed = fmt.Errorf("%s: refines %s, but there is no contract for %s", e.Unit, ikey, mkey)
+				return e
+			}
+			isig := p.interfaceMethodSig(ikey, fn.Name())
+			if isig == nil || isig.Params().Len() != len(args)-1 {
+				e.failed = fmt.Errorf("%s: cannot bind the interface method %s", e.Unit, mkey)
+				return e
+			}
+			recvT := fn.Signature.Recv().Type()
+			b := map[string]TV{}
+			self := MkIface(IntLit(int64(p.W.TypeTag(recvT))), args[0])
+			b["self"] = TV{Val: self, Ty: p.namedType(ikey)}
+			for i := 0; i < isig.Params().Len(); i++ {
+				prm := isig.Params().At(i)
+				tv := TV{Val: args[i+1], Ty: prm.Type()}
+				if prm.Name() != "" {
+					b[prm.Name()] = tv
+				}
+				b[fmt.Sprintf("arg%d", i)] = tv
+			}
+			tcs = append(tcs, tcInfo{tfc, b, isig})
+			e.absRecv = args[0]
+			e.absRecvBoxed = IVal(self)
+			e.absType = recvT.String()
+		}
+	}
 	// assume preconditions
 	assumeReq := func(cl *Clause, bind map[string]TV, spec *SpecFile) bool {
 		ec := &EvalCtx{e: e, st: st, old: fr.oldSt, bind: bind, spec: spec}
@@ -272,7 +309,7 @@ func (p *Prog) VerifyFunction(fn *ssa.Function, fc *FuncContract, split *int, wa
 				e.failed = fmt.Errorf("%s:%d: preserves: %v", fc.File, fc.Line, err)
 				return e
 			}
-			if t.kind != "loc" && t.kind != "elems" && t.kind != "map" && t.kind != "ghostvar" {
+			if t.kind != "loc" && t.kind != "elems" && t.kind != "map" && t.kind != "ghostvar" && t.kind != "ghostfield" {
 				e.failed = fmt.Errorf("%s:%d: preserves: only *p, x.f, elems(s), mapc(m) and ghost variables are supported", fc.File, fc.Line)
 				return e
 			}
@@ -328,6 +365,10 @@ func (p *Prog) VerifyFunction(fn *ssa.Function, fc *FuncContract, split *int, wa
 			}
 			e.oblig(r.st, "post", lab+"@"+rlabel, c, r.instr.Pos(), cl.Tags, cl)
 			return true
+		}
+		if fc != nil && fc.Constructs != "" && len(r.results) > 0 && fn.Signature.Results().Len() > 0 {
+			e.absRecv = r.results[0]
+			e.absType = fn.Signature.Results().At(0).Type().String()
 		}
 		if fc != nil && !fc.TrustedPost {
 			for i, en := range fc.Ensures {
@@ -667,4 +708,38 @@ func mentionsLocal(fn *ssa.Function, x SExpr) bool {
 	}
 	walk(x)
 	return found
+}
+
+// interfaceMethodSig finds method name of the named interface type pkgpath.Name.
+func (p *Prog) interfaceMethodSig(key, name string) *types.Signature {
+	t := p.namedType(key)
+	if t == nil {
+		return nil
+	}
+	it, ok := t.Underlying().(*types.Interface)
+	if !ok {
+		return nil
+	}
+	for i := 0; i < it.NumMethods(); i++ {
+		if m := it.Method(i); m.Name() == name {
+			return m.Type().(*types.Signature)
+		}
+	}
+	return nil
+}
+
+func (p *Prog) namedType(key string) types.Type {
+	i := strings.LastIndex(key, ".")
+	if i < 0 {
+		return nil
+	}
+	pkg := p.Pkgs[key[:i]]
+	if pkg == nil {
+		return nil
+	}
+	tn, ok := pkg.Types.Scope().Lookup(key[i+1:]).(*types.TypeName)
+	if !ok {
+		return nil
+	}
+	return tn.Type()
 }
